@@ -175,6 +175,8 @@ Proof.
   - split; [assumption|]. split; assumption.
   - split; [assumption|]. split; assumption.
   - split; [assumption|]. split; constructor.
+  - split; [exact H1|]. split; assumption.
+  - split; [assumption|]. split; assumption.
   - split; [assumption|]. split; assumption.
   - split; [assumption|]. split; assumption.
 Qed.
